@@ -73,7 +73,11 @@ def run_config(cfg):
     from tlv.oracle import suites
     import tlexport.cipher_suite_parser as csp
     shims.install(csp)
-    csp.cipher_suites = SymDict(csp.cipher_suites)
+    # every module-level table keyed by byte strings gets a solver-decided lookup (the suite table, and whatever other table a
+    # lookup of the id may go through)
+    for gname, gval in list(vars(csp).items()):
+        if isinstance(gval, dict) and not isinstance(gval, SymDict) and gval and all(isinstance(k, (bytes, bytearray)) for k in gval):
+            setattr(csp, gname, SymDict(gval))
     reg = suites.registry()
     xc = _openssl_crosscheck(reg)
     if xc.get("openssl_disagreements"):
@@ -95,6 +99,9 @@ def run_config(cfg):
             c.check(~sym_or(*[sid == k.to_bytes(2, "big") for k in table]) if table else True, "outside-table-unsupported")
             return {"outcome": "unsupported"}
         code = int.from_bytes(sid.concrete(), "big")   # the path fixed the id
+        if code not in table:
+            c.fail("outside-table-unsupported", "code %04x is not in the table but was resolved (to %r)" % (code, _observed(cs)))
+            return {"outcome": "resolved outside the table"}
         name = table[code]
         c.check(reg.get(code) == name, "name-is-iana-name", "code %04x: table name %s, registry %s" % (code, name, reg.get(code)))
         exp = _expected(reg.get(code, name))
